@@ -234,8 +234,27 @@ def simple_call_graph(py) -> Dict[str, Set[str]]:
             if root in ext[mod]:
                 continue
             last = n.split(".")[-1].replace("()", "")
+            cls = py.enclosing_class(fn)
             if isinstance(c.func, ast.Name) or root == "ford":
                 names.add("f:" + last)     # module-level function or class
+            elif isinstance(c.func, ast.Attribute) and isinstance(c.func.value, ast.Call) and \
+                    call_name(c.func.value) == "super" and cls:
+                r = py.resolve_method(cls, last, after=cls)
+                if r:
+                    names.add(f"q:{py.classes[r[0]].module}.{r[0]}.{last}")
+            elif isinstance(c.func, ast.Attribute) and isinstance(c.func.value, ast.Name) and \
+                    c.func.value.id in py.classes and last in py.classes[c.func.value.id].methods:
+                k = c.func.value.id
+                names.add(f"q:{py.classes[k].module}.{k}.{last}")
+            elif isinstance(c.func, ast.Attribute) and isinstance(c.func.value, ast.Name) and \
+                    c.func.value.id == "self" and cls:
+                hit = False
+                for k in set(py.mro(cls)) | set(py.subclasses(cls)):
+                    if k in py.classes and last in py.classes[k].methods:
+                        names.add(f"q:{py.classes[k].module}.{k}.{last}")
+                        hit = True
+                if not hit:
+                    names.add("m:" + last)
             else:
                 names.add("m:" + last)     # method of some class
         # property reads that trigger code: `.html`, `.outfile`, `.ident` ... (attribute loads)
@@ -279,6 +298,8 @@ def r2_reachability(ctx, rep):
             for n in g[q]:
                 if n.startswith("@"):
                     todo.extend(props.get(n[1:], []))
+                elif n.startswith("q:"):
+                    todo.append(n[2:])
                 else:
                     todo.extend(by_simple.get(n, []))
         return seen
